@@ -289,7 +289,10 @@ Starts(units, widths, pos) ==
 
 NormObj(o, widthsOf(_)) ==
   IF o.ty \in {"map", "table"} THEN
-     [EmptyObj(o.id, o.ty) EXCEPT !.ents = {[k |-> e.k] @@ NormReg(e) : e \in ToSet(o.ents)}]
+     \* keys() must list every key once: a duplicate makes the object differ from any interpretation
+     IF Cardinality({o.ents[i].k : i \in DOMAIN o.ents}) # Len(o.ents)
+     THEN [EmptyObj(o.id, o.ty) EXCEPT !.text = <<"duplicate-keys">>]
+     ELSE [EmptyObj(o.id, o.ty) EXCEPT !.ents = {[k |-> e.k] @@ NormReg(e) : e \in ToSet(o.ents)}]
   ELSE IF o.ty = "list" THEN
      [EmptyObj(o.id, o.ty) EXCEPT !.len = o.len, !.elems = [i \in DOMAIN o.elems |-> NormReg(o.elems[i])]]
   ELSE LET ws == widthsOf(o.id) IN
